@@ -122,9 +122,21 @@ def gen(tier, rng, shard, nshards):
             # cola may forget an annotation on the way (A.H of a declared Dense is a fresh Dense): the Hermitian
             # composite is declared at the top, truthfully, so that Eigh/Lanczos are admissible
             node = {"k": "Annot", "name": "PSD", "arg": node}
+        indefinite = (not directed) and rng.random() < 0.08
+        if indefinite:
+            # Hermitian *indefinite* operators (declared SelfAdjoint, truthfully) for the functions defined on the whole real line:
+            # exp, entire user functions, integer powers
+            hermitian = True
+            fn = S.pick(rng, ["exp", "apply_unary", "pow", "pow"])
+            n_ = int(rng.integers(2, 7))
+            eigs = [float(x) for x in np.linspace(-2.0, 2.5, n_)]
+            node = {"k": "Annot", "name": "SelfAdjoint", "arg": {"k": S.pick(rng, ["Dense", "Dense", "Generic"]), "shape": [n_, n_], "dt": dt if dt != "f4" else "f8",
+                                                                 "seed": S.seed(rng), "gen": "herm", "eigs": eigs}}
         n = R.shape_of(node)[0]
         if hermitian:
             alg = S.pick(rng, ["omitted", "Auto", "Eigh", "Eig", "Lanczos", "Lanczos", "Arnoldi"])
+            if indefinite:
+                alg = S.pick(rng, ["Eigh", "Eigh", "Eig", "omitted", "Auto", "Lanczos", "Arnoldi"])
             if directed:
                 alg = S.pick(rng, ["Arnoldi", "Arnoldi", "Lanczos"])
         else:
@@ -133,7 +145,7 @@ def gen(tier, rng, shard, nshards):
         case = {"spec": node, "fn": fn, "alg": alg, "iters": iters, "cols": int(S.pick(rng, [0, 1, 3])), "seed": S.seed(rng),
                 "hermitian": hermitian}
         if fn == "pow":
-            case["a"] = S.pick(rng, POWERS)
+            case["a"] = S.pick(rng, POWERS) if not indefinite else S.pick(rng, [2, 3, 10, -2, 9])
             if case["a"] == -1:
                 # power -1 is delegated to inv(): Lanczos -> CG and Eigh -> Cholesky, which refuse operators that are not
                 # *declared* PSD.  The matrices here are positive definite: declare them so (admissible algorithm object).
